@@ -5,7 +5,7 @@
  *   aggr  a=ncases            random aggregation chains (long, all sibling kinds, all algorithms, chain lists, TLV route)
  *   memo  a=ncases b=withfail c=cache   repeated KSI_AggregationHashChain_aggregate on one object, different start levels
  *   calx  a=Lc b=P            all direction strings up to length Lc x all publication times 0..P
- *   calr  a=ncases            random calendar chains: times (32/64 bit, top bit) and hash aggregation with algorithm switching
+ *   calr  a=ncases b=exotic   random calendar chains: times (32/64 bit, top bit) and hash aggregation with algorithm switching
  *   shape a=Ls b=nrandom      shape index: all patterns up to Ls links, lengths 56..70
  *
  * Trusted base: OpenSSL EVP digests. Everything else (ordering, level byte, level rule, sibling bytes, TLV encoding of the
@@ -22,8 +22,18 @@ KSI_IMPORT_TLV_TEMPLATE(KSI_AggregationHashChain);
 KSI_IMPORT_TLV_TEMPLATE(KSI_CalendarHashChain);
 
 static KSI_CTX *ctx;
+/* at most two reports per key and process (the framework merges by key anyway) */
+static int key_seen(const char *key) {
+	static char *keys[512]; static int cnt[512], nk; int i;
+	for (i = 0; i < nk; i++) if (!strcmp(keys[i], key)) return cnt[i]++ >= 2;
+	if (nk < 512) { keys[nk] = strdup(key); cnt[nk++] = 1; }
+	return 0;
+}
+#define VIOL(key, rep, ...) do { vh_count("violating_cases", 1); if (!key_seen(key)) vh_viol(key, rep, __VA_ARGS__); } while (0)
 static const char *g_mode = "?";
 static unsigned long long g_seed, g_shard, g_nshards;
+static char g_cmd[200];
+#define CASE(fmt, ...) vh_case("cmd=[%s] " fmt, g_cmd, __VA_ARGS__)
 
 /* ------------------------------------------------------------------ reference: digests */
 static const int KNOWN[] = {0, 1, 2, 4, 5, 7, 8, 9, 10, 11};
@@ -68,9 +78,10 @@ typedef struct {
 	int kind;
 	unsigned char *sib; size_t sib_len;   /* exactly the bytes the sibling contributes to the step hash */
 	int noncanon;                  /* metadata payload contains a child with a non-minimal (16-bit) header */
+	unsigned char *alt; size_t alt_len;   /* noncanon only: the same payload with minimal child headers */
 } RLink;
 
-enum { R_OK = 0, R_REJECT = 1, R_UNDECIDED = 2 };
+enum { RS_OK = 0, RS_REJECT = 1, RS_UNDECIDED = 2 };
 enum { WHY_NONE = 0, WHY_CORR_GE_2P32, WHY_CORR_256_TO_2P32, WHY_LEVEL_GT_255 };
 typedef struct { int status; int why; size_t why_at; int level; unsigned char imp[80]; size_t imp_len; } RRes;
 static const char *why_name(int w) {
@@ -80,45 +91,47 @@ static const char *why_name(int w) {
 
 /* Aggregation step (Appendix A): l' = l + c + 1; left link: H(h || s || byte(l')), right link: H(s || h || byte(l')).
  * Rejected iff some c > 255 or some l' > 255. */
+static int ref_use_alt;   /* evaluate with the minimally re-encoded metadata payloads (see cmp_aggr) */
 static void ref_aggr(const RLink *l, size_t n, const unsigned char *in, size_t in_len, int start, long long alg, RRes *r) {
 	size_t i; int level = start; unsigned char h[80], nh[80]; size_t hl = in_len;
 	memset(r, 0, sizeof(*r));
 	for (i = 0; i < n; i++) {
 		uint64_t c = l[i].has_lc ? l[i].lc : 0;
-		if (c > 255) { r->status = R_REJECT; r->why = c >= (1ull << 32) ? WHY_CORR_GE_2P32 : WHY_CORR_256_TO_2P32; r->why_at = i; return; }
+		if (c > 255) { r->status = RS_REJECT; r->why = c >= (1ull << 32) ? WHY_CORR_GE_2P32 : WHY_CORR_256_TO_2P32; r->why_at = i; return; }
 		level = level + (int)c + 1;
-		if (level > 255) { r->status = R_REJECT; r->why = WHY_LEVEL_GT_255; r->why_at = i; return; }
+		if (level > 255) { r->status = RS_REJECT; r->why = WHY_LEVEL_GT_255; r->why_at = i; return; }
 	}
-	if (alg < 0 || alg > 255 || !ref_ok[alg]) { r->status = R_UNDECIDED; return; }
+	if (alg < 0 || alg > 255 || !ref_ok[alg]) { r->status = RS_UNDECIDED; return; }
 	memcpy(h, in, in_len);
 	level = start;
 	for (i = 0; i < n; i++) {
 		unsigned char lb;
 		level += (int)(l[i].has_lc ? l[i].lc : 0) + 1;
 		lb = (unsigned char)level;
-		if (l[i].isLeft) hl = ref_hash3((int)alg, h, hl, l[i].sib, l[i].sib_len, &lb, 1, nh);
-		else hl = ref_hash3((int)alg, l[i].sib, l[i].sib_len, h, hl, &lb, 1, nh);
-		if (!hl) { r->status = R_UNDECIDED; return; }
+		{ const unsigned char *sb = ref_use_alt && l[i].alt ? l[i].alt : l[i].sib; size_t sl = ref_use_alt && l[i].alt ? l[i].alt_len : l[i].sib_len;
+		if (l[i].isLeft) hl = ref_hash3((int)alg, h, hl, sb, sl, &lb, 1, nh);
+		else hl = ref_hash3((int)alg, sb, sl, h, hl, &lb, 1, nh); }
+		if (!hl) { r->status = RS_UNDECIDED; return; }
 		memcpy(h, nh, hl);
 	}
-	r->status = R_OK; r->level = level; memcpy(r->imp, h, hl); r->imp_len = hl;
+	r->status = RS_OK; r->level = level; memcpy(r->imp, h, hl); r->imp_len = hl;
 }
 
 /* Calendar step: level byte 0xff; algorithm = input hash's algorithm, switched at a left link to the sibling's algorithm.
- * *need_alg = first algorithm the reference could not compute (then status = R_UNDECIDED). */
+ * *need_alg = first algorithm the reference could not compute (then status = RS_UNDECIDED). */
 static void ref_cal(const RLink *l, size_t n, const unsigned char *in, size_t in_len, RRes *r, int *need_alg) {
 	size_t i; unsigned char h[80], nh[80]; size_t hl = in_len; int alg = in[0]; unsigned char lb = 0xff;
 	memset(r, 0, sizeof(*r)); *need_alg = -1;
 	memcpy(h, in, in_len);
 	for (i = 0; i < n; i++) {
 		if (l[i].isLeft) alg = l[i].sib[0];
-		if (!ref_ok[alg]) { r->status = R_UNDECIDED; *need_alg = alg; return; }
+		if (!ref_ok[alg]) { r->status = RS_UNDECIDED; *need_alg = alg; return; }
 		if (l[i].isLeft) hl = ref_hash3(alg, h, hl, l[i].sib, l[i].sib_len, &lb, 1, nh);
 		else hl = ref_hash3(alg, l[i].sib, l[i].sib_len, h, hl, &lb, 1, nh);
-		if (!hl) { r->status = R_UNDECIDED; *need_alg = alg; return; }
+		if (!hl) { r->status = RS_UNDECIDED; *need_alg = alg; return; }
 		memcpy(h, nh, hl);
 	}
-	r->status = R_OK; r->level = 0xff; memcpy(r->imp, h, hl); r->imp_len = hl;
+	r->status = RS_OK; r->level = 0xff; memcpy(r->imp, h, hl); r->imp_len = hl;
 }
 
 /* ------------------------------------------------------------------ reference: TLV writer */
@@ -185,8 +198,8 @@ static void gen_imprint(unsigned char *imp, size_t *len, int alg) {
 	for (i = 0; i < dl; i++) imp[1 + i] = (unsigned char)vh_rand();
 	*len = (size_t)dl + 1;
 }
-static void link_clear(RLink *l) { free(l->sib); memset(l, 0, sizeof(*l)); }
-static void links_free(RLink *l, size_t n) { size_t i; for (i = 0; i < n; i++) free(l[i].sib); free(l); }
+static void link_clear(RLink *l) { free(l->sib); free(l->alt); memset(l, 0, sizeof(*l)); }
+static void links_free(RLink *l, size_t n) { size_t i; for (i = 0; i < n; i++) { free(l[i].sib); free(l[i].alt); } free(l); }
 static void gen_sib_imprint(RLink *l, int alg) {
 	unsigned char imp[80]; size_t n;
 	gen_imprint(imp, &n, alg);
@@ -207,17 +220,28 @@ static void put_str(Buf *b, unsigned tag, size_t n, int force16) {
 }
 /* metadata payload: [padding 7E] clientId [machineId] [sequenceNr] [requestTime]; sib = the payload bytes */
 static void gen_sib_meta(RLink *l, int allow_noncanon, int allow_long) {
-	Buf b = {0}; int pad = (int)vh_below(3); size_t cl = 1 + (size_t)vh_below(20);
+	Buf b = {0}, altb = {0}; size_t altbase = 0; int pad = (int)vh_below(3); size_t cl = 1 + (size_t)vh_below(20);
 	static const unsigned char p1[] = {0x01}, p2[] = {0x01, 0x01};
 	l->noncanon = allow_noncanon && vh_below(8) == 0;
 	if (allow_long && vh_below(10) == 0) cl = 240 + (size_t)vh_below(400);
 	if (pad == 1) tlv_put(&b, 0x1e, FL_N | FL_F, p1, 1, 0);
 	if (pad == 2) tlv_put(&b, 0x1e, FL_N | FL_F, p2, 2, 0);
-	put_str(&b, 0x01, cl, l->noncanon);
+	{ size_t before = b.n; put_str(&b, 0x01, cl, l->noncanon);
+	  if (l->noncanon) {   /* alt = same payload, client id with the minimal header */
+		Buf a = {0}; buf_put(&a, b.p, before); tlv_put(&a, 0x01, 0, b.p + before + 4, cl + 1, 0);
+		if (a.n == b.n) l->noncanon = 0;   /* long string: the 16-bit header is the minimal one */
+		altb = a; } }
 	if (vh_below(2)) put_str(&b, 0x02, 1 + (size_t)vh_below(12), 0);
 	if (vh_below(2)) tlv_put_int(&b, 0x03, vh_rand() >> vh_below(64));
 	if (vh_below(2)) tlv_put_int(&b, 0x04, vh_rand() >> vh_below(64));
+	(void)altbase;
 	l->kind = SIB_META; l->sib = malloc(b.n); memcpy(l->sib, b.p, b.n); l->sib_len = b.n;
+	if (l->noncanon) {   /* append what followed the client id */
+		size_t tail_from = altb.n + 2;   /* the 16-bit header is two bytes longer */
+		buf_put(&altb, b.p + tail_from, b.n - tail_from);
+		l->alt = malloc(altb.n); memcpy(l->alt, altb.p, altb.n); l->alt_len = altb.n;
+	}
+	buf_free(&altb);
 	buf_free(&b);
 }
 static void gen_sibling(RLink *l, int kind, int allow_noncanon, int allow_long) {
@@ -347,7 +371,7 @@ static void first_bad_link(const Case *c, char *out, size_t outsz) {
 		RRes r; int mr = 0, lvl = -1, res; KSI_DataHash *root = NULL, *in = NULL; const unsigned char *p; size_t pl;
 		KSI_HashChainLinkList *lst;
 		ref_aggr(c->l, k, c->in, c->in_len, c->start, c->alg, &r);
-		if (r.status != R_OK) return;
+		if (r.status != RS_OK) return;
 		lst = lib_list(c->l, k, 0, &mr); in = lib_hash(c->in, c->in_len);
 		if (!lst || !in) { KSI_HashChainLinkList_free(lst); KSI_DataHash_free(in); return; }
 		res = KSI_HashChain_aggregate(ctx, lst, in, c->start, (KSI_HashAlgorithm)c->alg, &lvl, &root);
@@ -364,7 +388,7 @@ static void report(const Case *c, const char *cond, const char *wclass, const ch
 	snprintf(key, sizeof key, "%s:%s:%s", c->entry, cond, wclass);
 	va_start(va, fmt); vsnprintf(what, sizeof what, fmt, va); va_end(va);
 	rep = describe_case(c->entry, c->l, c->n, c->in, c->in_len, c->start, c->alg);
-	vh_viol(key, rep, "%s%s%s | %.900s", what, c->note ? " | " : "", c->note ? c->note : "", rep);
+	VIOL(key, rep, "%s%s%s | %.900s", what, c->note ? " | " : "", c->note ? c->note : "", rep);
 	free(rep);
 }
 /* returns 1 when the outcome agrees with the reference */
@@ -379,7 +403,7 @@ static int cmp_aggr(const Case *c, int res, int has_level, int level, KSI_DataHa
 			report(c, "empty-chain-not-identity", "len-0", "OK for a chain without links but root/level differ from the input (level %d)", level); return 0; }
 		vh_count("empty_chain_identity", 1); return 1;
 	}
-	if (ref->status == R_REJECT) {
+	if (ref->status == RS_REJECT) {
 		if (res != KSI_OK) { vh_count("rejected_as_required", 1); return 1; }
 		if (root) KSI_DataHash_getImprint(root, &p, &pl);
 		{ char *hx = p ? vh_hex(p, pl) : strdup("(null)");
@@ -388,18 +412,28 @@ static int cmp_aggr(const Case *c, int res, int has_level, int level, KSI_DataHa
 		free(hx); }
 		return 0;
 	}
-	if (ref->status == R_UNDECIDED) { vh_count("skipped_out_of_domain", 1); return 1; }
+	if (ref->status == RS_UNDECIDED) { vh_count("skipped_out_of_domain", 1); return 1; }
 	if (res != KSI_OK) { report(c, "valid-rejected", "any", "valid chain (reference level %d) rejected with status 0x%x", ref->level, res); return 0; }
 	if (root == NULL) { report(c, "ok-null-root", "any", "KSI_OK but no root hash"); return 0; }
 	if (has_level && level != ref->level) { report(c, "level-differs", "any", "root level %d, reference %d", level, ref->level); return 0; }
 	if (KSI_DataHash_getImprint(root, &p, &pl) != KSI_OK || pl != ref->imp_len || memcmp(p, ref->imp, pl)) {
-		char *a = p ? vh_hex(p, pl) : strdup("?"), *b = vh_hex(ref->imp, ref->imp_len);
+		char *a, *b; size_t i; int has_alt = 0;
+		/* Metadata whose child carries a non-minimal header: "serialized metadata" can be read as the bytes on the wire or
+		 * as the minimal re-encoding of the same element; both roots are accepted, the second is counted as an observation. */
+		for (i = 0; i < c->n; i++) if (c->l[i].alt) has_alt = 1;
+		if (has_alt && p) {
+			RRes r2; ref_use_alt = 1; ref_aggr(c->l, c->n, c->in, c->in_len, c->start, c->alg, &r2); ref_use_alt = 0;
+			if (r2.status == RS_OK && pl == r2.imp_len && !memcmp(p, r2.imp, pl)) { vh_count("obs_noncanonical_metadata_header_reencoded_before_hashing", 1); return 1; }
+		}
+		a = p ? vh_hex(p, pl) : strdup("?"); b = vh_hex(ref->imp, ref->imp_len);
 		if (strstr(c->entry, "memo") || strstr(c->entry, "List")) snprintf(cls, sizeof cls, "any"); else first_bad_link(c, cls, sizeof cls);
 		report(c, "root-differs", cls, "root %s, reference %s (first diverging prefix ends with a %s link)", a, b, cls);
 		free(a); free(b);
 		return 0;
 	}
 	vh_count("roots_equal", 1);
+	{ static int shown; if (!shown && g_shard == 0 && c->n >= 3 && c->n <= 6) { char *d = describe_case(c->entry, c->l, c->n, c->in, c->in_len, c->start, c->alg), *hx = vh_hex(ref->imp, ref->imp_len);
+		shown = 1; vh_sample("aggregation: %.700s -> level %d root %s (library == reference)", d, ref->level, hx); free(d); free(hx); } }
 	return 1;
 }
 
@@ -435,7 +469,7 @@ static void run_both_entries(const RLink *l, size_t n, const unsigned char *in, 
 			KSI_DataHash_free(root);
 			lib_aggr_obj_release_keep_list(obj);
 		}
-		if (ref.status == R_OK) vh_count("ref_valid_chains", 1); else if (ref.status == R_REJECT) vh_count("ref_must_reject_chains", 1);
+		if (ref.status == RS_OK) vh_count("ref_valid_chains", 1); else if (ref.status == RS_REJECT) vh_count("ref_must_reject_chains", 1);
 	}
 	KSI_HashChainLinkList_free(lst); KSI_DataHash_free(inh);
 }
@@ -462,7 +496,7 @@ static void mode_aggx(int Lfull, int Lmax) {
 			for (i = 0; i < n; i++) { unsigned d = (unsigned)(v % 18); v /= 18; link_clear(&l[i]); l[i].isLeft = d & 1; l[i].has_lc = C9_HAS[d >> 1]; l[i].lc = C9_VAL[d >> 1]; fill_sibling_fixed(&l[i], idx, (size_t)i); }
 			alg = SUP[idx % (uint64_t)NSUP];
 			gen_imprint(in, &in_len, KNOWN[idx % NKNOWN]);
-			vh_case("aggx partA n=%d idx=%llu alg=%lld", n, (unsigned long long)idx, alg);
+			CASE("aggx partA n=%d idx=%llu alg=%lld", n, (unsigned long long)idx, alg);
 			run_both_entries(l, (size_t)n, in, in_len, alg, START4, 4);
 			vh_count("aggx_full_product_chains", 1);
 		}
@@ -480,7 +514,7 @@ static void mode_aggx(int Lfull, int Lmax) {
 				int k;
 				for (k = 0; k < n; k++) { int bg = (int)((pat + (uint64_t)k + (uint64_t)i) % 3); l[k].has_lc = bg != 0; l[k].lc = bg == 2 ? 1 : 0; }
 				l[i].has_lc = C9_HAS[ci]; l[i].lc = C9_VAL[ci];
-				vh_case("aggx partB n=%d pattern=0x%llx pos=%d corr#=%d", n, (unsigned long long)pat, i, ci);
+				CASE("aggx partB n=%d pattern=0x%llx pos=%d corr#=%d", n, (unsigned long long)pat, i, ci);
 				run_both_entries(l, (size_t)n, in, in_len, alg, START4, 4);
 				vh_count("aggx_single_correction_chains", 1);
 			}
@@ -488,7 +522,7 @@ static void mode_aggx(int Lfull, int Lmax) {
 				int k;
 				for (k = 0; k < n; k++) { l[k].has_lc = 0; l[k].lc = 0; }
 				l[i].has_lc = 1; l[i].lc = C9_VAL[BIG[ci]]; l[j].has_lc = 1; l[j].lc = C9_VAL[BIG[cj]];
-				vh_case("aggx partB2 n=%d pattern=0x%llx pos=%d,%d corr#=%d,%d", n, (unsigned long long)pat, i, j, BIG[ci], BIG[cj]);
+				CASE("aggx partB2 n=%d pattern=0x%llx pos=%d,%d corr#=%d,%d", n, (unsigned long long)pat, i, j, BIG[ci], BIG[cj]);
 				run_both_entries(l, (size_t)n, in, in_len, alg, START4, 4);
 				vh_count("aggx_pair_correction_chains", 1);
 			}
@@ -541,8 +575,8 @@ static void aggr_one_random(uint64_t caseno) {
 	gen_imprint(in, &in_len, KNOWN[vh_below(NKNOWN)]);
 	alg = SUP[vh_below((uint64_t)NSUP)];
 	starts[0] = start;
-	vh_case("aggr case=%llu n=%zu start=%d alg=%lld valid_target=%d", (unsigned long long)caseno, n, start, alg, target_valid);
-	{ RRes r; ref_aggr(l, n, in, in_len, start, alg, &r); if (r.status == R_OK && n > 64) vh_count("valid_chains_longer_than_64", 1); if (n > 255) vh_count("chains_longer_than_255", 1); }
+	CASE("aggr case=%llu n=%zu start=%d alg=%lld valid_target=%d", (unsigned long long)caseno, n, start, alg, target_valid);
+	{ RRes r; ref_aggr(l, n, in, in_len, start, alg, &r); if (r.status == RS_OK && n > 64) vh_count("valid_chains_longer_than_64", 1); if (n > 255) vh_count("chains_longer_than_255", 1); }
 
 	/* (a)+(b) setter-built list and object */
 	run_both_entries(l, n, in, in_len, alg, starts, 1);
@@ -582,12 +616,12 @@ static void aggr_one_random(uint64_t caseno) {
 static void aggr_list_random(uint64_t caseno) {
 	enum { MAXC = 5 };
 	size_t nc = 1 + (size_t)vh_below(MAXC), k, tot = 0; RLink *ls[MAXC]; size_t ns[MAXC]; long long algs[MAXC]; unsigned char ins[MAXC][80]; size_t inl[MAXC];
-	KSI_AggregationHashChainList *lst = NULL; int start = (int)vh_below(8), level, expect = R_OK, why = 0; size_t why_chain = 0; RRes r; int target_valid = vh_below(100) < 70;
+	KSI_AggregationHashChainList *lst = NULL; int start = (int)vh_below(8), level, expect = RS_OK, why = 0; size_t why_chain = 0; RRes r; int target_valid = vh_below(100) < 70;
 	int built = 1, res; KSI_DataHash *root = NULL; RLink *flat; unsigned char cur[80]; size_t curl;
 	if (vh_below(30) == 0) start = (int)vh_below(256);
 	level = start; memset(&r, 0, sizeof r);
 	gen_imprint(cur, &curl, KNOWN[vh_below(NKNOWN)]);
-	vh_case("aggr-list case=%llu nchains=%zu start=%d", (unsigned long long)caseno, nc, start);
+	CASE("aggr-list case=%llu nchains=%zu start=%d", (unsigned long long)caseno, nc, start);
 	if (KSI_AggregationHashChainList_new(&lst) != KSI_OK) { harness_fail("list_new", 0); return; }
 	for (k = 0; k < nc; k++) {
 		KSI_AggregationHashChain *obj = NULL; int mr = 0, pres = 0;
@@ -595,9 +629,9 @@ static void aggr_list_random(uint64_t caseno) {
 		algs[k] = SUP[vh_below((uint64_t)NSUP)];
 		ls[k] = gen_chain(ns[k], level < 256 ? level : 255, target_valid && level + (int)ns[k] + 60 < 255, 0);
 		memcpy(ins[k], cur, curl); inl[k] = curl; tot += ns[k];
-		if (expect == R_OK) {
+		if (expect == RS_OK) {
 			ref_aggr(ls[k], ns[k], cur, curl, level, algs[k], &r);
-			if (r.status == R_OK) { level = r.level; memcpy(cur, r.imp, r.imp_len); curl = r.imp_len; }
+			if (r.status == RS_OK) { level = r.level; memcpy(cur, r.imp, r.imp_len); curl = r.imp_len; }
 			else { expect = r.status; why = r.why; why_chain = k; }
 		}
 		if (vh_below(2)) obj = lib_aggr_parse(ls[k], ns[k], ins[k], inl[k], (uint64_t)algs[k], &pres);
@@ -614,14 +648,14 @@ static void aggr_list_random(uint64_t caseno) {
 		for (k = 0; k < nc && o < sizeof note - 24; k++) o += (size_t)snprintf(note + o, sizeof note - o, " %zu/%lld", ns[k], algs[k]);
 		c.entry = "AggregationHashChainList_aggregate"; c.l = flat; c.n = tot; c.in = ins[0]; c.in_len = inl[0]; c.start = start; c.alg = algs[0]; c.note = note;
 		rr.status = expect; rr.why = why;
-		if (expect == R_REJECT) { size_t base = 0; for (k = 0; k < why_chain; k++) base += ns[k]; rr.why_at = base + r.why_at; }
-		if (expect == R_OK) { rr.level = level; memcpy(rr.imp, cur, curl); rr.imp_len = curl; }
+		if (expect == RS_REJECT) { size_t base = 0; for (k = 0; k < why_chain; k++) base += ns[k]; rr.why_at = base + r.why_at; }
+		if (expect == RS_OK) { rr.level = level; memcpy(rr.imp, cur, curl); rr.imp_len = curl; }
 		res = KSI_AggregationHashChainList_aggregate(lst, ctx, start, &root);
 		/* a root mismatch here is located with the flat chain only when a single hash id is used; cmp_aggr's locator is best effort */
 		cmp_aggr(&c, res, 0, 0, root, &rr);
 		vh_fp(vh_mix(chain_fp(flat, tot, start, algs[0], 3), nc));
 		vh_count("chain_lists", 1);
-		if (expect == R_OK) vh_count("chain_lists_valid", 1);
+		if (expect == RS_OK) vh_count("chain_lists_valid", 1);
 		KSI_DataHash_free(root);
 		free(flat);
 	}
@@ -635,7 +669,7 @@ static void aggr_bad_hash_id(uint64_t caseno) {
 	uint64_t id = IDS[vh_below(sizeof IDS / sizeof IDS[0])]; size_t n = 1 + (size_t)vh_below(4); RLink *l = gen_chain(n, 0, 1, 0); unsigned char in[80]; size_t in_len; int mr = 0;
 	KSI_HashChainLinkList *ll; KSI_AggregationHashChain *obj; int lvl, res; KSI_DataHash *root = NULL;
 	gen_imprint(in, &in_len, 1);
-	vh_case("aggr-bad-hash-id case=%llu id=%llu", (unsigned long long)caseno, (unsigned long long)id);
+	CASE("aggr-bad-hash-id case=%llu id=%llu", (unsigned long long)caseno, (unsigned long long)id);
 	ll = lib_list(l, n, 0, &mr);
 	obj = ll ? lib_aggr_obj(ll, in, in_len, id) : NULL;
 	if (obj) {
@@ -687,9 +721,9 @@ static void mode_memo(uint64_t ncases, int withfail, long cache) {
 			else start = (int)vh_below((uint64_t)(255 - used) + 1);                /* valid */
 			c.start = start;
 			ref_aggr(l, n, in, in_len, start, alg, &ref);
-			if (ho < sizeof hist - 12) ho += (size_t)snprintf(hist + ho, sizeof hist - ho, "%s%d%s", k ? "," : "", start, ref.status == R_REJECT ? "!" : "");
+			if (ho < sizeof hist - 12) ho += (size_t)snprintf(hist + ho, sizeof hist - ho, "%s%d%s", k ? "," : "", start, ref.status == RS_REJECT ? "!" : "");
 			snprintf(note, sizeof note, "same object, call %zu of the start-level sequence [%s] ('!' = must be rejected)%s", k + 1, hist, failed_before ? "; an earlier call in the sequence failed" : "");
-			vh_case("memo case=%llu withfail=%d cache=%ld seq=[%s] n=%zu alg=%lld", (unsigned long long)i, withfail, cache, hist, n, alg);
+			CASE("memo case=%llu withfail=%d cache=%ld seq=[%s] n=%zu alg=%lld", (unsigned long long)i, withfail, cache, hist, n, alg);
 			res = KSI_AggregationHashChain_aggregate(obj, start, &lvl, &root);
 			c.entry = failed_before ? "AggregationHashChain_aggregate:memo-after-failed-call" : (prev == start ? "AggregationHashChain_aggregate:memo-hit" : "AggregationHashChain_aggregate:memo-other-level");
 			cmp_aggr(&c, res, res == KSI_OK, lvl, root, &ref);
@@ -770,18 +804,22 @@ static void cal_time_check(KSI_CalendarHashChain *c, const unsigned char *isLeft
 	vh_eval++;
 	res = KSI_CalendarHashChain_calculateAggregationTime(c, &out);
 	if (n == 0) { vh_count(res == KSI_OK ? "cal_empty_chain_ok" : "cal_empty_chain_rejected", 1); if (res != KSI_OK || (valid && (uint64_t)out == t)) return; }
-	if (valid && res == KSI_OK && (uint64_t)out == t) { vh_count("cal_time_equal", 1); return; }
+	if (valid && res == KSI_OK && (uint64_t)out == t) {
+		static int shown; vh_count("cal_time_equal", 1);
+		if (!shown && g_shard == 1 && n >= 5) { char dd[100]; size_t j; for (j = 0; j < n && j < 99; j++) dd[j] = isLeft[j] ? 'L' : 'R'; dd[j] = 0; shown = 1;
+			vh_sample("calendar time: publication_time=%llu links(leaf side first)=%s -> %llu (library == reference, %s)", (unsigned long long)p, dd, (unsigned long long)t, origin); }
+		return; }
 	if (!valid && res != KSI_OK) { vh_count("cal_impossible_shape_rejected", 1); return; }
 	if (valid && res != KSI_OK && (p >> 63)) { vh_count("cal_rejected_pubtime_not_representable", 1); return; }   /* time_t cannot hold such a time */
 	for (i = 0; i < n && i < sizeof dirs - 1; i++) dirs[i] = isLeft[i] ? 'L' : 'R';
 	dirs[i] = 0;
 	snprintf(rep, sizeof rep, "entry=CalendarHashChain_calculateAggregationTime publication_time=%llu links(first=leaf side)=%s origin=%s", (unsigned long long)p, dirs, origin);
 	if (!valid) { snprintf(key, sizeof key, "calculateAggregationTime:impossible-shape-accepted:%s", plen_class(p));
-		vh_viol(key, rep, "no leaf of the calendar tree for publication time %llu has this chain shape, but the call returned KSI_OK with time %lld | %s", (unsigned long long)p, (long long)out, rep); }
+		VIOL(key, rep, "no leaf of the calendar tree for publication time %llu has this chain shape, but the call returned KSI_OK with time %lld | %s", (unsigned long long)p, (long long)out, rep); }
 	else if (res != KSI_OK) { snprintf(key, sizeof key, "calculateAggregationTime:valid-shape-rejected:%s", plen_class(p));
-		vh_viol(key, rep, "shape is the path of leaf %llu but the call failed with 0x%x | %s", (unsigned long long)t, res, rep); }
+		VIOL(key, rep, "shape is the path of leaf %llu but the call failed with 0x%x | %s", (unsigned long long)t, res, rep); }
 	else { snprintf(key, sizeof key, "calculateAggregationTime:time-differs:%s", plen_class(p));
-		vh_viol(key, rep, "time %lld, reference %llu | %s", (long long)out, (unsigned long long)t, rep); }
+		VIOL(key, rep, "time %lld, reference %llu | %s", (long long)out, (unsigned long long)t, rep); }
 }
 
 static void mode_calx(int Lc, uint64_t P) {
@@ -797,7 +835,7 @@ static void mode_calx(int Lc, uint64_t P) {
 		if (KSI_Integer_new(ctx, p, &pi) != KSI_OK) { harness_fail("KSI_Integer_new", 0); continue; }
 		cal_build(p, Lc);
 		if (cal_leaves != p + 1) selfcheck_bad++;
-		vh_case("calx publication_time=%llu (all direction strings up to %d links)", (unsigned long long)p, Lc);
+		CASE("calx publication_time=%llu (all direction strings up to %d links)", (unsigned long long)p, Lc);
 		for (n = 0; n <= Lc; n++) {
 			uint32_t bits;
 			for (bits = 0; bits < (1u << n); bits++) {
@@ -853,7 +891,7 @@ static void calr_time_case(uint64_t caseno) {
 	else if (m == 2) { size_t k = (size_t)vh_below(n + 1); memmove(dl + k + 1, dl + k, n - k); dl[k] = (unsigned char)vh_below(2); n++; origin = "one-link-inserted"; }
 	else if (m == 3) { size_t i; n = (size_t)vh_below(70); for (i = 0; i < n; i++) dl[i] = (unsigned char)vh_below(2); origin = "random-directions"; }
 	valid = cal_lazy(dl, n, p, &t2);
-	vh_case("calr-time case=%llu publication_time=%llu nlinks=%zu origin=%s", (unsigned long long)caseno, (unsigned long long)p, n, origin);
+	CASE("calr-time case=%llu publication_time=%llu nlinks=%zu origin=%s", (unsigned long long)caseno, (unsigned long long)p, n, origin);
 	c = cal_obj(dl, n, NULL);
 	if (!c || KSI_Integer_new(ctx, p, &pi) != KSI_OK) { KSI_CalendarHashChain_free(c); return; }
 	KSI_CalendarHashChain_setPublicationTime(c, pi);
@@ -869,14 +907,14 @@ static void cal_report(const char *entry, const char *cond, const char *cls, con
 	snprintf(key, sizeof key, "%s:%s:%s", entry, cond, cls);
 	va_start(va, fmt); vsnprintf(what, sizeof what, fmt, va); va_end(va);
 	rep = describe_case(entry, l, n, in, in_len, 0xff, -1);
-	vh_viol(key, rep, "%s | %.900s", what, rep);
+	VIOL(key, rep, "%s | %.900s", what, rep);
 	free(rep);
 }
 static void cal_cmp(const char *entry, const RLink *l, size_t n, const unsigned char *in, size_t in_len, int res, KSI_DataHash *root, const RRes *ref, int need_alg) {
 	const unsigned char *p = NULL; size_t pl = 0;
 	vh_eval++;
 	if (n == 0) { vh_count(res != KSI_OK ? "cal_empty_chain_rejected" : root ? "cal_empty_chain_ok_root" : "cal_empty_chain_ok_null_root", 1); return; }
-	if (ref->status == R_UNDECIDED) {
+	if (ref->status == RS_UNDECIDED) {
 		/* a left link switches to an algorithm the reference cannot compute */
 		if (res == KSI_OK && need_alg >= 0 && !KSI_isHashAlgorithmSupported(need_alg))
 			cal_report(entry, "ok-with-unsupported-algorithm", "left-link-switch", l, n, in, in_len, "KSI_OK although the chain switches to hash id %d which this build reports as unsupported", need_alg);
@@ -890,7 +928,7 @@ static void cal_cmp(const char *entry, const RLink *l, size_t n, const unsigned 
 		char cls[64] = "unlocated", *a = p ? vh_hex(p, pl) : strdup("?"), *b = vh_hex(ref->imp, ref->imp_len); size_t k;
 		for (k = 1; k <= n; k++) {
 			RRes r; int na, mr = 0, bad; KSI_HashChainLinkList *ls; KSI_DataHash *ih, *rt = NULL; const unsigned char *q; size_t ql;
-			ref_cal(l, k, in, in_len, &r, &na); if (r.status != R_OK) break;
+			ref_cal(l, k, in, in_len, &r, &na); if (r.status != RS_OK) break;
 			ls = lib_list(l, k, 1, &mr); ih = lib_hash(in, in_len);
 			bad = !ls || !ih || KSI_HashChain_aggregateCalendar(ctx, ls, ih, &rt) != KSI_OK || !rt || KSI_DataHash_getImprint(rt, &q, &ql) != KSI_OK || ql != r.imp_len || memcmp(q, r.imp, ql);
 			KSI_DataHash_free(rt); KSI_DataHash_free(ih); KSI_HashChainLinkList_free(ls);
@@ -902,10 +940,12 @@ static void cal_cmp(const char *entry, const RLink *l, size_t n, const unsigned 
 		return;
 	}
 	vh_count("cal_roots_equal", 1);
+	{ static int shown; if (!shown && g_shard == 0 && n >= 3 && n <= 5) { char *d = describe_links(l, n), *hx = vh_hex(ref->imp, ref->imp_len), *ih = vh_hex(in, in_len); shown = 1;
+		vh_sample("calendar root: %s input=%s links=%.600s -> %s (library == reference)", entry, ih, d, hx); free(d); free(hx); free(ih); } }
 }
-static void calr_hash_case(uint64_t caseno) {
+static void calr_hash_case(uint64_t caseno, int allow_exotic) {
 	size_t n = vh_below(30) == 0 ? 0 : 1 + (size_t)vh_below(vh_below(4) == 0 ? 64 : 12), i; RLink *l = calloc(n ? n : 1, sizeof(RLink)); unsigned char in[80]; size_t in_len; RRes ref; int need = -1, mr = 0, res;
-	int exotic = vh_below(8) == 0; int switches = 0, cur;
+	int exotic = allow_exotic && vh_below(2) == 0; int switches = 0, cur;
 	KSI_HashChainLinkList *ls; KSI_DataHash *ih, *root = NULL;
 	gen_imprint(in, &in_len, SUP[vh_below((uint64_t)NSUP)]);
 	cur = in[0];
@@ -917,7 +957,7 @@ static void calr_hash_case(uint64_t caseno) {
 		if (l[i].isLeft) { if (alg != cur) switches++; cur = alg; }
 	}
 	ref_cal(l, n, in, in_len, &ref, &need);
-	vh_case("calr-hash case=%llu n=%zu in_alg=%d switches=%d", (unsigned long long)caseno, n, in[0], switches);
+	CASE("calr-hash case=%llu n=%zu in_alg=%d switches=%d", (unsigned long long)caseno, n, in[0], switches);
 	vh_count("cal_algorithm_switches", (uint64_t)switches);
 	/* direct list entry */
 	ls = lib_list(l, n, 1, &mr); ih = lib_hash(in, in_len);
@@ -948,9 +988,9 @@ static void calr_hash_case(uint64_t caseno) {
 	vh_fp(vh_mix(chain_fp(l, n, 0xff, in[0], 5), vh_hash_bytes(in, in_len)));
 	links_free(l, n);
 }
-static void mode_calr(uint64_t ncases) {
+static void mode_calr(uint64_t ncases, int exotic) {
 	uint64_t i;
-	for (i = 0; i < ncases; i++) { if (vh_below(3)) calr_time_case(i); else calr_hash_case(i); }
+	for (i = 0; i < ncases; i++) { if (exotic) calr_hash_case(i, 1); else if (vh_below(3)) calr_time_case(i); else calr_hash_case(i, 0); }
 }
 
 /* ------------------------------------------------------------------ shape index */
@@ -962,16 +1002,17 @@ static void shape_check(KSI_AggregationHashChain *c, KSI_HashChainLinkList *lst,
 	vh_eval++;
 	res = KSI_AggregationHashChain_calculateShape(c, &out);
 	if (n == 0 && res != KSI_OK) { vh_count("shape_empty_rejected", 1); return; }
-	if (n <= 63 && res == KSI_OK && out == ref) { vh_count("shape_equal", 1); vh_fp(vh_mix(0x5a9e, ref) ^ n); return; }
+	if (n <= 63 && res == KSI_OK && out == ref) { static int shown; vh_count("shape_equal", 1);
+		if (!shown && g_shard == 0 && n >= 10) { char dd[100]; size_t j; for (j = 0; j < n && j < 99; j++) dd[j] = isLeft[j] ? 'L' : 'R'; dd[j] = 0; shown = 1; vh_sample("shape: links(leaf side first)=%s -> index 0x%llx (library == reference)", dd, (unsigned long long)ref); } vh_fp(vh_mix(0x5a9e, ref) ^ n); return; }
 	if (n >= 64 && res != KSI_OK) { vh_count("shape_too_long_rejected", 1); vh_fp(vh_mix(0x5a9f, vh_hash_bytes(isLeft, n))); return; }
 	for (i = 0; i < n && i < sizeof dirs - 1; i++) dirs[i] = isLeft[i] ? 'L' : 'R';
 	dirs[i] = 0;
 	if (n <= 8) snprintf(lc, sizeof lc, "len-%zu", n); else if (n <= 62) snprintf(lc, sizeof lc, "len-9-62"); else if (n <= 65) snprintf(lc, sizeof lc, "len-%zu", n); else snprintf(lc, sizeof lc, "len-ge-66");
 	snprintf(rep, sizeof rep, "entry=AggregationHashChain_calculateShape nlinks=%zu links(first=leaf side)=%s origin=%s", n, dirs, origin);
 	if (n >= 64) { snprintf(key, sizeof key, "calculateShape:accepted-must-reject:%s", lc);
-		vh_viol(key, rep, "a chain of %zu links has an index of %zu bits, which does not fit 64 bits, but the call returned KSI_OK with 0x%llx (leading bit lost) | %s", n, n + 1, (unsigned long long)out, rep); }
-	else if (res != KSI_OK) { snprintf(key, sizeof key, "calculateShape:valid-rejected:%s", lc); vh_viol(key, rep, "status 0x%x, reference index 0x%llx | %s", res, (unsigned long long)ref, rep); }
-	else { snprintf(key, sizeof key, "calculateShape:value-differs:%s", lc); vh_viol(key, rep, "index 0x%llx, reference 0x%llx | %s", (unsigned long long)out, (unsigned long long)ref, rep); }
+		VIOL(key, rep, "a chain of %zu links has an index of %zu bits, which does not fit 64 bits, but the call returned KSI_OK with 0x%llx (leading bit lost) | %s", n, n + 1, (unsigned long long)out, rep); }
+	else if (res != KSI_OK) { snprintf(key, sizeof key, "calculateShape:valid-rejected:%s", lc); VIOL(key, rep, "status 0x%x, reference index 0x%llx | %s", res, (unsigned long long)ref, rep); }
+	else { snprintf(key, sizeof key, "calculateShape:value-differs:%s", lc); VIOL(key, rep, "index 0x%llx, reference 0x%llx | %s", (unsigned long long)out, (unsigned long long)ref, rep); }
 }
 static void mode_shape(int Ls, uint64_t nrandom) {
 	size_t n; unsigned char d[128]; uint64_t counter = 0;
@@ -983,7 +1024,7 @@ static void mode_shape(int Ls, uint64_t nrandom) {
 		{ RLink *l = calloc(n ? n : 1, sizeof(RLink)); int mr = 0; for (i = 0; i < n; i++) gen_sib_imprint(&l[i], 1); lst = lib_list(l, n, 0, &mr); links_free(l, n); }
 		c = lst ? lib_aggr_obj(lst, (const unsigned char *)"\1aaaaaaaaaaaaaaaaaaaaaaaaaaaaaaaa", 33, 1) : NULL;
 		if (!c) { KSI_HashChainLinkList_free(lst); continue; }
-		vh_case("shape nlinks=%zu", n);
+		CASE("shape nlinks=%zu", n);
 		if ((int)n <= Ls) {
 			uint64_t pat;
 			for (pat = 0; pat < (1ull << n); pat++) { if ((counter++) % g_nshards != g_shard) continue; for (i = 0; i < n; i++) d[i] = (pat >> i) & 1; shape_check(c, lst, n, d, "exhaustive"); }
@@ -991,7 +1032,8 @@ static void mode_shape(int Ls, uint64_t nrandom) {
 			if ((counter++) % g_nshards == g_shard) {
 				memset(d, 1, n); shape_check(c, lst, n, d, "all-left");
 				memset(d, 0, n); shape_check(c, lst, n, d, "all-right");
-				for (i = 0; i < n; i++) d[i] = i & 1; shape_check(c, lst, n, d, "alternating");
+				for (i = 0; i < n; i++) { d[i] = i & 1; }
+				shape_check(c, lst, n, d, "alternating");
 				for (i = 0; i < n; i++) { memset(d, 0, n); d[i] = 1; shape_check(c, lst, n, d, "single-left"); }
 				for (i = 0; i < n; i++) { memset(d, 1, n); d[i] = 0; shape_check(c, lst, n, d, "single-right"); }
 			}
@@ -1008,6 +1050,7 @@ int main(int argc, char **argv) {
 	g_mode = argv[1]; g_seed = strtoull(argv[2], NULL, 10); g_shard = strtoull(argv[3], NULL, 10); g_nshards = strtoull(argv[4], NULL, 10);
 	a = argc > 5 ? atoll(argv[5]) : 0; b = argc > 6 ? atoll(argv[6]) : 0; c = argc > 7 ? atoll(argv[7]) : -1;
 	if (g_nshards == 0) g_nshards = 1;
+	{ size_t o = 0; for (i = 0; i < argc && o < sizeof g_cmd - 1; i++) o += (size_t)snprintf(g_cmd + o, sizeof g_cmd - o, "%s%s", i ? " " : "", i ? argv[i] : "c03_chain"); }
 	if (KSI_CTX_new(&ctx) != KSI_OK) { fprintf(stderr, "KSI_CTX_new failed\n"); return 2; }
 	ref_init();
 	if (NSUP < 2) { fprintf(stderr, "fewer than two usable hash algorithms\n"); return 2; }
@@ -1017,7 +1060,7 @@ int main(int argc, char **argv) {
 	else if (!strcmp(g_mode, "aggr")) mode_aggr((uint64_t)a);
 	else if (!strcmp(g_mode, "memo")) mode_memo((uint64_t)a, (int)b, (long)c);
 	else if (!strcmp(g_mode, "calx")) mode_calx((int)a, (uint64_t)b);
-	else if (!strcmp(g_mode, "calr")) mode_calr((uint64_t)a);
+	else if (!strcmp(g_mode, "calr")) mode_calr((uint64_t)a, (int)b);
 	else if (!strcmp(g_mode, "shape")) mode_shape((int)a, (uint64_t)b);
 	else { fprintf(stderr, "unknown mode %s\n", g_mode); return 2; }
 	KSI_CTX_free(ctx);
